@@ -370,6 +370,17 @@ def Groups (adj : List (List Nat)) (k : Nat) (labels : List Nat) : Prop :=
   ∀ u v, u < adj.length → v < adj.length →
     (labels.getD u 0 = labels.getD v 0 ↔ sameClass adj k u v = true)
 
+/-- executable form of `WFAdj` -/
+def wfAdjB (adj : List (List Nat)) : Bool := adj.all fun l => l.all (· < adj.length)
+
+theorem wfAdj_of_check (adj : List (List Nat)) (h : wfAdjB adj = true) : WFAdj adj := by
+  intro u hu w hw
+  unfold wfAdjB at h
+  have h1 := List.all_eq_true.1 h (adj.getD u []) (by
+    rw [List.getD_eq_getElem?_getD, List.getElem?_eq_getElem hu]; simp)
+  have := List.all_eq_true.1 h1 w hw
+  simpa using this
+
 theorem sameClass_succ_iff (adj : List (List Nat)) (k u v : Nat) :
     sameClass adj (k+1) u v = true ↔
       sameClass adj k u v = true ∧
@@ -784,5 +795,108 @@ theorem coloring_spec (hx : ExactOps ops) (adj : List (List Nat)) (hwf : WFAdj a
         stable_succ adj hwf k (stable_of_unchanged hx adj hwf k labels inv h)
       obtain ⟨k', h1, h2, h3, h4⟩ := ih (k+1) (round ops adj labels).1 (round ops adj labels).2 inv' hst'
       exact ⟨k', by omega, by omega, h3, fun h => h4 (by omega)⟩
+
+/-! ### the exact instance: sorted colour lists, lexicographic order -/
+
+theorem insertNat_perm (x : Nat) (l : List Nat) : (insertNat x l).Perm (x :: l) := by
+  induction l with
+  | nil => simp [insertNat]
+  | cons y ys ih =>
+    unfold insertNat
+    split
+    · exact List.Perm.refl _
+    · exact (List.Perm.cons y ih).trans (List.Perm.swap x y ys)
+
+theorem sortNat_perm (l : List Nat) : (sortNat l).Perm l := by
+  induction l with
+  | nil => simp [sortNat]
+  | cons x xs ih =>
+    have : sortNat (x :: xs) = insertNat x (sortNat xs) := by simp [sortNat]
+    rw [this]; exact (insertNat_perm x _).trans (List.Perm.cons x ih)
+
+theorem insertNat_sorted (x : Nat) (l : List Nat) (h : l.Pairwise (· ≤ ·)) : (insertNat x l).Pairwise (· ≤ ·) := by
+  induction l with
+  | nil => simp [insertNat]
+  | cons y ys ih =>
+    obtain ⟨h1, h2⟩ := List.pairwise_cons.1 h
+    unfold insertNat
+    split
+    · rename_i hxy
+      refine List.pairwise_cons.2 ⟨fun z hz => ?_, h⟩
+      rcases List.mem_cons.1 hz with rfl | hz
+      · exact hxy
+      · exact Nat.le_trans hxy (h1 z hz)
+    · rename_i hxy
+      refine List.pairwise_cons.2 ⟨fun z hz => ?_, ih h2⟩
+      have : z ∈ x :: ys := (insertNat_perm x ys).mem_iff.1 hz
+      rcases List.mem_cons.1 this with rfl | hz'
+      · omega
+      · exact h1 z hz'
+
+theorem sortNat_sorted (l : List Nat) : (sortNat l).Pairwise (· ≤ ·) := by
+  induction l with
+  | nil => simp [sortNat]
+  | cons x xs ih =>
+    have : sortNat (x :: xs) = insertNat x (sortNat xs) := by simp [sortNat]
+    rw [this]; exact insertNat_sorted x _ ih
+
+theorem sortNat_eq_iff (l l' : List Nat) : sortNat l = sortNat l' ↔ l.Perm l' := by
+  constructor
+  · intro h
+    exact (sortNat_perm l).symm.trans (h ▸ sortNat_perm l')
+  · intro h
+    apply List.Perm.eq_of_pairwise (le := (· ≤ ·)) (fun a b _ _ h1 h2 => Nat.le_antisymm h1 h2)
+      (sortNat_sorted l) (sortNat_sorted l')
+    exact (sortNat_perm l).trans (h.trans (sortNat_perm l').symm)
+
+theorem ltList_irrefl : ∀ a, ltList a a = false
+  | [] => rfl
+  | x :: xs => by simp [ltList, ltList_irrefl xs]
+
+theorem ltList_trans : ∀ a b c, ltList a b = true → ltList b c = true → ltList a c = true
+  | [], [], _, h, _ => by simp [ltList] at h
+  | [], _ :: _, [], _, h => by simp [ltList] at h
+  | [], _ :: _, _ :: _, _, _ => by simp [ltList]
+  | _ :: _, [], _, h, _ => by simp [ltList] at h
+  | _ :: _, _ :: _, [], _, h => by simp [ltList] at h
+  | x :: xs, y :: ys, z :: zs, h1, h2 => by
+    unfold ltList at *
+    by_cases hxy : x < y
+    · by_cases hyz : y < z
+      · have : x < z := by omega
+        simp [this]
+      · by_cases hzy : z < y
+        · simp [hyz, hzy] at h2
+        · have : y = z := by omega
+          subst this; simp [hxy]
+    · by_cases hyx : y < x
+      · simp [hxy, hyx] at h1
+      · have hxy' : x = y := by omega
+        subst hxy'
+        simp only [hxy, if_false] at h1
+        by_cases hyz : x < z
+        · simp [hyz]
+        · by_cases hzy : z < x
+          · simp [hyz, hzy] at h2
+          · simp only [hyz, hzy, if_false] at h2 ⊢
+            exact ltList_trans xs ys zs h1 h2
+
+theorem ltList_total : ∀ a b, a = b ∨ ltList a b = true ∨ ltList b a = true
+  | [], [] => Or.inl rfl
+  | [], _ :: _ => Or.inr (Or.inl (by simp [ltList]))
+  | _ :: _, [] => Or.inr (Or.inr (by simp [ltList]))
+  | x :: xs, y :: ys => by
+    unfold ltList
+    by_cases hxy : x < y
+    · right; left; simp [hxy]
+    · by_cases hyx : y < x
+      · right; right; simp [hyx]
+      · have : x = y := by omega
+        subst this
+        simp only [hxy, if_false]
+        rcases ltList_total xs ys with h | h | h
+        · left; rw [h]
+        · right; left; exact h
+        · right; right; exact h
 
 end SkNet.WL
